@@ -910,6 +910,28 @@ def _thread_sentinels(body: list[ast.stmt]) -> bool:
     """`if c: x = None  else: ...; x = <value>` followed by `if x is None: A [else: B]`  ->  A / B move to the ends of the
     branches that decide the test (what remains after inlining a helper that returns None to signal failure)."""
     changed = False
+    # `if x is None: A` directly followed by `if x is not None: B` (A does not re-bind x) is one if/else
+    k = 0
+    while k + 1 < len(body):
+        a_, b_ = body[k], body[k + 1]
+        if isinstance(a_, ast.If) and isinstance(b_, ast.If) and not a_.orelse and not b_.orelse:
+            def _sent(t):
+                neg = False
+                while isinstance(t, ast.UnaryOp) and isinstance(t.op, ast.Not):
+                    t, neg = t.operand, not neg
+                if isinstance(t, ast.Compare) and len(t.ops) == 1 and isinstance(t.left, ast.Name) and isinstance(t.ops[0], (ast.Is, ast.IsNot)) \
+                        and isinstance(t.comparators[0], ast.Constant) and t.comparators[0].value is None:
+                    return t.left.id, (isinstance(t.ops[0], ast.Is)) != neg
+                return None
+            sa, sb = _sent(a_.test), _sent(b_.test)
+            if sa and sb and sa[0] == sb[0] and sa[1] != sb[1] and not any(
+                    isinstance(y, ast.Name) and y.id == sa[0] and isinstance(y.ctx, (ast.Store, ast.Del))
+                    for st_ in a_.body for y in ast.walk(st_)):
+                a_.orelse = b_.body
+                del body[k + 1]
+                changed = True
+                continue
+        k += 1
     i = 0
     while i + 1 < len(body):
         s1, s2 = body[i], body[i + 1]
@@ -947,14 +969,93 @@ def _thread_sentinels(body: list[ast.stmt]) -> bool:
                                   if not isinstance(z, ast.Return))
                 sites = _break_sites(s1.body)
                 e_ = _noneness_at_end(s1.orelse, x)
-                if movable and sites and e_ in (True, False) and all(_noneness_at_end(blk[:k], x) in (True, False) for blk, k in sites):
+                # an element of the sequence being searched counts as a value (`found = item; break`)
+                elems = {y.id for y in ast.walk(s1.target) if isinstance(y, ast.Name)} if isinstance(s1, ast.For) else set()
+
+                def _nn(blk_, k_):
+                    r_ = _noneness_at_end(blk_[:k_], x)
+                    if r_ is None and k_ > 0 and isinstance(blk_[k_ - 1], ast.Assign) and len(blk_[k_ - 1].targets) == 1 \
+                            and isinstance(blk_[k_ - 1].targets[0], ast.Name) and blk_[k_ - 1].targets[0].id == x \
+                            and isinstance(blk_[k_ - 1].value, ast.Name) and blk_[k_ - 1].value.id in elems:
+                        return False
+                    return r_
+                if movable and sites and e_ in (True, False) and all(_nn(blk, k) in (True, False) for blk, k in sites):
                     for blk, k in sorted(sites, key=lambda bk: -bk[1]):
-                        ins = copy.deepcopy(when_none if _noneness_at_end(blk[:k], x) is True else otherwise)
+                        ins = copy.deepcopy(when_none if _nn(blk, k) is True else otherwise)
+                        src = blk[k - 1].value if k > 0 and isinstance(blk[k - 1], ast.Assign) and len(blk[k - 1].targets) == 1 \
+                            and isinstance(blk[k - 1].targets[0], ast.Name) and blk[k - 1].targets[0].id == x else None
+                        if isinstance(src, ast.Name) and not any(
+                                isinstance(y, ast.Name) and y.id in (x, src.id) and isinstance(y.ctx, (ast.Store, ast.Del))
+                                for st_ in ins for y in ast.walk(st_)) and not any(
+                                isinstance(y, (ast.FunctionDef, ast.Lambda)) for st_ in ins for y in ast.walk(st_)):
+                            class _RN2(ast.NodeTransformer):
+                                def visit_Name(self, n_):
+                                    return ast.copy_location(ast.Name(src.id, n_.ctx), n_) if n_.id == x else n_
+                            ins = [_RN2().visit(st_) for st_ in ins]
                         if ins and isinstance(ins[-1], (ast.Return, ast.Raise)):
                             blk[k:k + 1] = ins        # the `break` behind it would be unreachable
                         else:
                             blk[k:k] = ins
                     s1.orelse.extend(copy.deepcopy(when_none if e_ is True else otherwise))
+                    del body[i + 1]
+                    changed = done = True
+        if not done and isinstance(s1, ast.For) and not s1.orelse and isinstance(s2, ast.If) and isinstance(s1.target, ast.Name):
+            # search loop with the sentinel set before it:  x = None; for v in S: ... if c: x = v; break   /  if x is None: A else: B
+            t, neg = s2.test, False
+            while isinstance(t, ast.UnaryOp) and isinstance(t.op, ast.Not):
+                t, neg = t.operand, not neg
+            if isinstance(t, ast.Compare) and len(t.ops) == 1 and isinstance(t.left, ast.Name) and isinstance(t.ops[0], (ast.Is, ast.IsNot)) \
+                    and isinstance(t.comparators[0], ast.Constant) and t.comparators[0].value is None:
+                x = t.left.id
+                if isinstance(t.ops[0], ast.IsNot):
+                    neg = not neg
+                when_none, otherwise = (s2.orelse, s2.body) if neg else (s2.body, s2.orelse)
+                # the sentinel: `x = None` among the plain assignments right before the loop
+                k0 = i - 1
+                init = None
+                while k0 >= 0 and isinstance(body[k0], ast.Assign) and len(body[k0].targets) == 1 and isinstance(body[k0].targets[0], ast.Name):
+                    if body[k0].targets[0].id == x:
+                        init = body[k0]
+                        break
+                    if any(isinstance(y, ast.Name) and y.id == x for y in ast.walk(body[k0])):
+                        break
+                    k0 -= 1
+                sites = _break_sites(s1.body)
+                stores = [y for y in ast.walk(s1) if isinstance(y, ast.Name) and y.id == x and isinstance(y.ctx, ast.Store)]
+
+                def found_at(blk, k):
+                    # `x = <loop variable or non-null value>` directly before the break
+                    if k == 0:
+                        return None
+                    st_ = blk[k - 1]
+                    if isinstance(st_, ast.Assign) and len(st_.targets) == 1 and isinstance(st_.targets[0], ast.Name) and st_.targets[0].id == x:
+                        v = st_.value
+                        if isinstance(v, ast.Name) and v.id == s1.target.id or _value_nonnull(v):
+                            return st_.targets[0]
+                    return None
+                marks = [found_at(blk, k) for blk, k in sites]
+                movable = not any(isinstance(z, (ast.Break, ast.Continue)) for blk in (when_none, otherwise) for z in _own_walk_stmts(blk)
+                                  if not isinstance(z, ast.Return))
+                if init is not None and isinstance(init.value, ast.Constant) and init.value.value is None and sites \
+                        and all(m is not None for m in marks) and {id(m) for m in marks} == {id(y) for y in stores} and movable \
+                        and sum(1 for blk in (when_none, otherwise) for st in blk for _ in ast.walk(st)) <= 600:
+                    for blk, k in sorted(sites, key=lambda bk: -bk[1]):
+                        ins = copy.deepcopy(otherwise)
+                        src = blk[k - 1].value
+                        if isinstance(src, ast.Name) and not any(
+                                isinstance(y, ast.Name) and y.id in (x, src.id) and isinstance(y.ctx, (ast.Store, ast.Del))
+                                for st_ in ins for y in ast.walk(st_)) and not any(
+                                isinstance(y, (ast.FunctionDef, ast.Lambda)) for st_ in ins for y in ast.walk(st_)):
+                            # the found element under its own name: `x = v` was just executed and neither is re-bound below
+                            class _RN(ast.NodeTransformer):
+                                def visit_Name(self, n_):
+                                    return ast.copy_location(ast.Name(src.id, n_.ctx), n_) if n_.id == x else n_
+                            ins = [_RN().visit(st_) for st_ in ins]
+                        if ins and isinstance(ins[-1], (ast.Return, ast.Raise)):
+                            blk[k:k + 1] = ins
+                        else:
+                            blk[k:k] = ins
+                    s1.orelse = copy.deepcopy(when_none) or []
                     del body[i + 1]
                     changed = done = True
         if not done:
@@ -969,6 +1070,229 @@ def _thread_sentinels(body: list[ast.stmt]) -> bool:
         for h in getattr(st, "handlers", []) or []:
             changed |= _thread_sentinels(h.body)
     return changed
+
+
+def _flag_at_end(block: list[ast.stmt], x: str):
+    """True / False: the constant `x` holds when the block ends (last assignment, looking back over plain assignments
+    to other names); "mixed": decided in every leaf of a final if/else, differently; None: unknown."""
+    k = len(block) - 1
+    while k >= 0:
+        st = block[k]
+        if isinstance(st, ast.Assign) and len(st.targets) == 1 and isinstance(st.targets[0], ast.Name):
+            if st.targets[0].id == x:
+                v = st.value
+                return v.value if isinstance(v, ast.Constant) and isinstance(v.value, bool) else None
+            if any(isinstance(y, ast.Name) and y.id == x for y in ast.walk(st.value)):
+                return None
+            k -= 1
+            continue
+        if isinstance(st, ast.If) and st.orelse and k == len(block) - 1:
+            a, b = _flag_at_end(st.body, x), _flag_at_end(st.orelse, x)
+            if a is None or b is None:
+                return None
+            return a if a == b else "mixed"
+        return None
+    return None
+
+
+def _thread_flags(body: list[ast.stmt]) -> bool:
+    """A search loop that leaves with `x = True; break` and sets `x = False` when it runs out, followed by `if x: A`:
+    A moves to the break (what remains of a helper that reports `found` as a Boolean next to its result)."""
+    changed = False
+    i = 0
+    while i + 1 < len(body):
+        s1, s2 = body[i], body[i + 1]
+        done = False
+        if isinstance(s1, (ast.For, ast.While)) and s1.orelse and isinstance(s2, ast.If):
+            t, neg = s2.test, False
+            while isinstance(t, ast.UnaryOp) and isinstance(t.op, ast.Not):
+                t, neg = t.operand, not neg
+            if isinstance(t, ast.Name):
+                x = t.id
+                when_true, otherwise = (s2.orelse, s2.body) if neg else (s2.body, s2.orelse)
+                movable = not any(isinstance(z, (ast.Break, ast.Continue)) for blk in (when_true, otherwise)
+                                  for z in _own_walk_stmts(blk) if not isinstance(z, ast.Return))
+                sites = _break_sites(s1.body)
+                e_ = _flag_at_end(s1.orelse, x)
+                if movable and sites and e_ in (True, False) and all(_flag_at_end(blk[:k], x) in (True, False) for blk, k in sites):
+                    for blk, k in sorted(sites, key=lambda bk: -bk[1]):
+                        ins = copy.deepcopy(when_true if _flag_at_end(blk[:k], x) is True else otherwise)
+                        if ins and isinstance(ins[-1], (ast.Return, ast.Raise)):
+                            blk[k:k + 1] = ins
+                        else:
+                            blk[k:k] = ins
+                    s1.orelse.extend(copy.deepcopy(when_true if e_ is True else otherwise))
+                    del body[i + 1]
+                    changed = done = True
+        if not done:
+            i += 1
+    for st in body:
+        if isinstance(st, (ast.FunctionDef, ast.ClassDef)):
+            continue
+        for fld in ("body", "orelse", "finalbody"):
+            b = getattr(st, fld, None)
+            if isinstance(b, list) and b and isinstance(b[0], ast.stmt):
+                changed |= _thread_flags(b)
+        for h in getattr(st, "handlers", []) or []:
+            changed |= _thread_flags(h.body)
+    return changed
+
+
+def _coalesce_inliner_copies(fn: ast.FunctionDef) -> bool:
+    """`v__i1 = v` ... (only `v__i1` is used) ... `v = v__i1` on the way out: the helper worked on the caller's variable and
+    handed it back; the temporary is the variable."""
+    changed = False
+
+    def block(body: list[ast.stmt]) -> None:
+        nonlocal changed
+        i = 0
+        while i < len(body):
+            st = body[i]
+            if isinstance(st, ast.Assign) and len(st.targets) == 1 and isinstance(st.targets[0], ast.Name) \
+                    and "__i" in st.targets[0].id and isinstance(st.value, ast.Name) and st.value.id != st.targets[0].id:
+                T, V = st.targets[0].id, st.value.id
+                last = i
+                for j in range(i + 1, len(body)):
+                    if any(isinstance(y, ast.Name) and y.id == T for y in ast.walk(body[j])):
+                        last = j
+                region = body[i + 1:last + 1]
+                ok = last > i
+                backs = []
+                for r in region:
+                    for y in ast.walk(r):
+                        if isinstance(y, ast.Assign) and len(y.targets) == 1 and isinstance(y.targets[0], ast.Name) \
+                                and y.targets[0].id == V and isinstance(y.value, ast.Name) and y.value.id == T:
+                            backs.append(y)
+                back_names = {id(y.targets[0]) for y in backs}
+                for r in region:
+                    for y in ast.walk(r):
+                        if isinstance(y, ast.Name) and y.id == V and id(y) not in back_names:
+                            ok = False
+                        if isinstance(y, (ast.FunctionDef, ast.Lambda)):
+                            ok = False
+                # T must not be used outside the region
+                outside = [y for k, r in enumerate(body) if not (i <= k <= last) for y in ast.walk(r)
+                           if isinstance(y, ast.Name) and y.id == T]
+                if ok and backs and not outside:
+                    class R(ast.NodeTransformer):
+                        def visit_Name(self, n):
+                            return ast.copy_location(ast.Name(V, n.ctx), n) if n.id == T else n
+
+                        def visit_Assign(self, n):
+                            if n in backs:
+                                return ast.copy_location(ast.Pass(), n)
+                            return self.generic_visit(n)
+                    for k in range(i + 1, last + 1):
+                        body[k] = R().visit(body[k])
+                    body[i] = ast.copy_location(ast.Pass(), st)
+                    changed = True
+            if not isinstance(st, (ast.FunctionDef, ast.ClassDef)):
+                for fld in ("body", "orelse", "finalbody"):
+                    b = getattr(st, fld, None)
+                    if isinstance(b, list) and b and isinstance(b[0], ast.stmt):
+                        block(b)
+                for h in getattr(st, "handlers", []) or []:
+                    block(h.body)
+            i += 1
+    block(fn.body)
+    if changed:
+        ast.fix_missing_locations(fn)
+    return changed
+
+
+def _thread_empty_results(body: list[ast.stmt]) -> bool:
+    """`if c: ...; xs = []  else: ...; xs = E` followed by a tail that works on `xs`: the tail moves into both branches and is
+    specialised for the empty list where `xs` is known to be empty (loops over it vanish, `len(xs) == 0` is decided).
+    This is the single-exit spelling of `if c: <nothing to do>; return`."""
+    from . import peval
+    changed = False
+    for i, s1 in enumerate(body):
+        if not (isinstance(s1, ast.If) and s1.orelse and i + 1 < len(body)):
+            continue
+
+        def ends_empty(blk):
+            if blk and isinstance(blk[-1], ast.Assign) and len(blk[-1].targets) == 1 and isinstance(blk[-1].targets[0], ast.Name) \
+                    and isinstance(blk[-1].value, ast.List) and not blk[-1].value.elts:
+                return blk[-1].targets[0].id
+            return None
+        xa, xb = ends_empty(s1.body), ends_empty(s1.orelse)
+        if (xa is None) == (xb is None):
+            continue
+        x = xa or xb
+        tail = body[i + 1:]
+        if any(isinstance(y, ast.Name) and y.id == x and isinstance(y.ctx, (ast.Store, ast.Del)) for st in tail for y in ast.walk(st)):
+            continue
+        if not any(isinstance(y, ast.Name) and y.id == x for st in tail for y in ast.walk(st)):
+            continue
+        if any(isinstance(y, (ast.FunctionDef, ast.Lambda, ast.ClassDef)) for st in tail for y in ast.walk(st)):
+            continue
+        if sum(1 for st in tail for _ in ast.walk(st)) > 800:
+            continue
+        other = s1.orelse if xa else s1.body
+        # the other branch must define x on every path it leaves normally; simplest: its last statement assigns x
+        if not any(isinstance(y, ast.Name) and y.id == x and isinstance(y.ctx, ast.Store) for st in other for y in ast.walk(st)):
+            continue
+
+        class E(ast.NodeTransformer):
+            def visit_Name(self, n):
+                if n.id == x and isinstance(n.ctx, ast.Load):
+                    return ast.copy_location(ast.List([], ast.Load()), n)
+                return n
+
+            def visit_Call(self, n):
+                self.generic_visit(n)
+                if isinstance(n.func, ast.Name) and n.func.id == "len" and len(n.args) == 1 and isinstance(n.args[0], ast.List) \
+                        and not n.args[0].elts:
+                    return ast.copy_location(ast.Constant(0), n)
+                return n
+
+            def visit_For(self, n):
+                self.generic_visit(n)
+                if isinstance(n.iter, ast.List) and not n.iter.elts:
+                    return n.orelse or None
+                return n
+        spec = []
+        for st in copy.deepcopy(tail):
+            r = E().visit(st)
+            if r is None:
+                continue
+            spec.extend(r if isinstance(r, list) else [r])
+        spec = peval._Fold({})._block(spec)
+        empty_branch = s1.body if xa else s1.orelse
+        empty_branch.extend(spec)
+        other.extend(tail)
+        del body[i + 1:]
+        changed = True
+        break
+    for st in body:
+        if isinstance(st, (ast.FunctionDef, ast.ClassDef)):
+            continue
+        for fld in ("body", "orelse", "finalbody"):
+            b = getattr(st, fld, None)
+            if isinstance(b, list) and b and isinstance(b[0], ast.stmt):
+                changed |= _thread_empty_results(b)
+        for h in getattr(st, "handlers", []) or []:
+            changed |= _thread_empty_results(h.body)
+    return changed
+
+
+def _split_tuple_assigns(fn: ast.FunctionDef) -> None:
+    """a, b = (e1, e2)  ->  a = e1; b = e2   (left behind where a helper that returns a tuple was inlined)"""
+    class T(ast.NodeTransformer):
+        def visit_FunctionDef(self, n):
+            return self.generic_visit(n) if n is fn else n
+
+        def visit_Assign(self, n):
+            if len(n.targets) == 1 and isinstance(n.targets[0], ast.Tuple) and isinstance(n.value, ast.Tuple) \
+                    and len(n.targets[0].elts) == len(n.value.elts) >= 2 and all(isinstance(t, ast.Name) for t in n.targets[0].elts):
+                names = [t.id for t in n.targets[0].elts]
+                for j, e in enumerate(n.value.elts):
+                    if {x.id for x in ast.walk(e) if isinstance(x, ast.Name)} & set(names[:j]):
+                        return n
+                return [ast.copy_location(ast.Assign([t], e), n) for t, e in zip(n.targets[0].elts, n.value.elts)]
+            return n
+    T().visit(fn)
+    ast.fix_missing_locations(fn)
 
 
 def _project_tuples(fn: ast.FunctionDef) -> bool:
@@ -1243,6 +1567,27 @@ def apply(repo) -> dict:
     report["renamed"] = undo_renames(repo)
     sra = _sra_prepare(repo, known)
     normalise_calls(repo)
+    # `def ids(self): return self._helper(..)` with a new generator `_helper`: the function hands on the helper's
+    # iterator, which is what `for y in self._helper(..): yield y` does for every consumer that only iterates
+    new0 = {k: f for k, f in repo.functions.items() if k not in known}
+    gens0 = {k for k, f in new0.items() if eligible_generator(f.node)}
+    if gens0:
+        for f in list(repo.functions.values()):
+            if f.key in gens0:
+                continue
+            body = [st for st in f.node.body if not (isinstance(st, ast.Expr) and isinstance(st.value, ast.Constant))]
+            if len(body) == 1 and isinstance(body[0], ast.Return) and isinstance(body[0].value, ast.Call) \
+                    and repo.resolve_call(f, body[0].value) in gens0 \
+                    and not any(isinstance(y, (ast.Yield, ast.YieldFrom)) for y in ast.walk(f.node)):
+                r_ = body[0]
+                lp = ast.For(ast.Name("_y0", ast.Store()), r_.value, [ast.Expr(ast.Yield(ast.Name("_y0", ast.Load())))], [])
+                ast.copy_location(lp, r_)
+                ast.fix_missing_locations(lp)
+                for y in ast.walk(lp):
+                    if hasattr(y, "lineno"):
+                        y.lineno = y.end_lineno = r_.lineno
+                f.node.body[f.node.body.index(r_)] = lp
+        repo.reindex()
     for rnd in range(6):
         new = {k: f for k, f in repo.functions.items() if k not in known}
         report["new"] = sorted(new)
@@ -1269,10 +1614,19 @@ def apply(repo) -> dict:
         if any(k.split(" -> ")[1].split(" [")[0] == f.key for k in report["inlined"]):
             _fold_after_inlining(f.node)
             _project_tuples(f.node)
-            _unfold_comprehension_loops(f.node)
+            _split_tuple_assigns(f.node)
+            _coalesce_inliner_copies(f.node)
+        # a loop over a list that was only built to be looped over is the loop over its source (everywhere: collecting
+        # first and looping afterwards is a common way to write the same scan)
+        if _unfold_comprehension_loops(f.node):
+            ast.fix_missing_locations(f.node)
     for f in list(repo.functions.values()):
         _collect_nonnull(f.node)
         if _thread_sentinels(f.node.body):
+            ast.fix_missing_locations(f.node)
+        if _thread_empty_results(f.node.body):
+            ast.fix_missing_locations(f.node)
+        if any(k.split(" -> ")[1].split(" [")[0] == f.key for k in report["inlined"]) and _thread_flags(f.node.body):
             ast.fix_missing_locations(f.node)
     # remove new functions without remaining references
     new = {k: f for k, f in repo.functions.items() if k not in known}
